@@ -43,7 +43,7 @@ def main():
         m = re.search(r"func (Test\w+)\(", open(os.path.join(src, demo)).read())
         names = re.findall(r"func (Test\w+)\(", open(os.path.join(src, demo)).read())
         run = "^(" + "|".join(names) + ")$"
-        cmd = "go test -vet=off -count=1 -timeout 180s -run '%s' ./%s/" % (run, demodir)
+        cmd = "go test %s -vet=off -count=1 -timeout 300s -run '%s' ./%s/" % (os.environ.get("CONFIRM_FLAGS", ""), run, demodir)
         rc, out = sh(cmd, wt)
         meta["ran"].append(dict(cmd=cmd, when="without change", rc=rc, tail=out[-600:]))
         if rc != 0:
